@@ -196,8 +196,28 @@ def d2_keys(ctx, js):
         if isinstance(c, ast.Subscript) and isinstance(c.ctx, ast.Store) and isinstance(c.slice, ast.Constant) and isinstance(c.slice.value, str):
             written.add(c.slice.value)
     read = set()
+    # names bound to (parts of) the parsed document: the confirmed roots plus everything assigned / iterated from a part of them
+    docs = {'json_dict', 'io', 'o', 'ens', 'rep', 'tagdic', 'tmp_o'}
+    for _ in range(4):
+        for c in walk(rf, skip_nested_defs=False):
+            src = tgt = None
+            if isinstance(c, ast.Assign) and len(c.targets) == 1 and isinstance(c.targets[0], ast.Name):
+                tgt, src = c.targets[0].id, c.value
+            elif isinstance(c, (ast.For, ast.comprehension)) and isinstance(c.target, ast.Name):
+                tgt, src = c.target.id, c.iter
+            if tgt is None or tgt in docs:
+                continue
+            e = src
+            while True:
+                if isinstance(e, ast.Subscript):
+                    e = e.value
+                elif isinstance(e, ast.Call) and isinstance(e.func, ast.Attribute) and e.func.attr in ('get', 'values', 'items', 'copy'):
+                    e = e.func.value
+                else:
+                    break
+            if isinstance(e, ast.Name) and e.id in docs and e is not src:
+                docs.add(tgt)
     for c in walk(rf, skip_nested_defs=False):
-        docs = ('json_dict', 'io', 'o', 'ens', 'rep', 'tagdic', 'tmp_o')     # names bound to (parts of) the parsed document
         if isinstance(c, ast.Subscript) and isinstance(c.ctx, ast.Load) and isinstance(c.slice, ast.Constant) and isinstance(c.slice.value, str):
             if unparse(c.value) in docs:
                 read.add(c.slice.value)
@@ -306,7 +326,10 @@ def d3_siblings(ctx, js):
     okw = 'o if o is not None else dummy_array for o in my_corr.content' in unparse(cw) and '_nan_Obs_like' in unparse(cw)
     okr = 'None if np.isnan(o.ravel()[0].value) else o for o in list(dat)' in unparse(cr)
     ctx.check(rule, 'json#corr-none', okw and okr, 'undefined timeslices are written as NaN observables and read back as None', 'None handling of Corr differs')
-    okt = "dat['tag']['prange'] = my_corr.prange" in unparse(cw) and "temp_prange = tagdic['prange']" in unparse(cr) and 'my_corr.prange = temp_prange' in unparse(cr)
+    rd_pr = [c for c in walk(cr) if (isinstance(c, ast.Subscript) and isinstance(c.ctx, ast.Load) and isinstance(c.slice, ast.Constant) and c.slice.value == 'prange')
+             or (isinstance(c, ast.Call) and isinstance(c.func, ast.Attribute) and c.func.attr == 'get' and c.args and isinstance(c.args[0], ast.Constant) and c.args[0].value == 'prange')]
+    okt = "dat['tag']['prange'] = my_corr.prange" in unparse(cw) and len(rd_pr) >= 1 and 'my_corr.prange = temp_prange' in unparse(cr) \
+        and any(isinstance(s_, ast.Assign) and unparse(s_.targets[0]) == 'temp_prange' and any(x is rd_pr[0] for x in ast.walk(s_.value)) for s_ in statements(cr))
     ctx.check(rule, 'json#corr-prange', okt, 'prange written and restored', 'prange handling differs')
     okt = 'corr_meta_data = str(my_corr.tag)' in unparse(cw) and "corr_tag = taglist[-1]" in unparse(cr) and "if corr_tag != 'None'" in unparse(cr)
     ctx.check(rule, 'json#corr-tag', okt, 'Corr tag appended last and taken from the last entry', 'tag handling differs')
@@ -479,10 +502,13 @@ def d8_optional_keys(ctx, js):
                   'tag lists %s are not written: the reader restores None for every element, the tags are lost' % wrong, js.loc(st[0]))
     # single-structure unwrapping must not reach the full_output dictionary: load_json_dict indexes obsdata by placeholder number
     f = js.func('_parse_json_dict')
-    un = [s_ for s_ in statements(f) if isinstance(s_, ast.Assign) and isinstance(s_.value, ast.Subscript) and unparse(s_.targets[0]) == unparse(s_.value.value) and const(s_.value.slice) == 0]
+    od = [s_ for s_ in statements(f) if isinstance(s_, ast.Assign) and unparse(s_.targets[0]) == "retd['obsdata']" and isinstance(s_.value, ast.Name)]
+    lname = od[0].value.id if len(od) == 1 else None
+    un = [s_ for s_ in statements(f) if isinstance(s_, (ast.Assign, ast.Return)) and isinstance(s_.value, ast.Subscript) and isinstance(s_.value.value, ast.Name)
+          and s_.value.value.id == lname and const(s_.value.slice) == 0]
     key = 'json#single-structure-unwrapping'
     if len(un) != 1:
-        ctx.unrec(rule, key, 'expected one unwrapping statement `ol = ol[0]`, found %d' % len(un))
+        ctx.unrec(rule, key, 'expected one unwrapping of the structure list (`ol = ol[0]` / `return ol[0]`), found %d' % len(un))
     else:
         neg = [unparse(t_) for t_ in established_false(js, f, un[0])]
         ctx.check(rule, key, 'full_output' in neg, 'the list of structures is unwrapped only when full_output is off (load_json_dict reads obsdata[k] of the full output)',
